@@ -1818,7 +1818,8 @@ class NiftiWrapper(object):
             result_hdr.set_intent(*hdr_info['intent'])
         if hdr_info['xyzt_units'] is not None:
             result_hdr.set_xyzt_units(*hdr_info['xyzt_units'])
-        if hdr_info['slice_duration'] is not None:
+        if (hdr_info['slice_duration'] is not None and
+            not slice_dim is None):
             result_hdr.set_slice_duration(hdr_info['slice_duration'])
         if hdr_info['slice_times'] is not None:
             result_hdr.set_slice_times(hdr_info['slice_times'])
